@@ -643,7 +643,6 @@ func (e *Env) noteCommitted(l *simNode, upto uint64) {
 	}
 }
 
-
 // eventsThrough returns the number of events R-log holds after raft index idx.
 func (e *Env) eventsThrough(idx uint64) uint64 {
 	if idx == 0 {
